@@ -449,6 +449,9 @@ type SliceOpts struct {
 	// result of a call of one of them continues into its returned values, a parameter of one of them
 	// continues into the arguments at its call sites inside the set.
 	Helpers map[*ssa.Function]bool
+	// Callers: the functions searched for call sites of a helper whose parameter is looked through
+	// (default: Helpers).
+	Callers map[*ssa.Function]bool
 }
 
 // Origins computes the origin set of v by walking backwards through phis, conversions,
@@ -612,7 +615,11 @@ func Origins(v ssa.Value, opt SliceOpts) []Origin {
 					}
 				}
 				n := 0
-				for f := range opt.Helpers {
+				callers := opt.Callers
+				if callers == nil {
+					callers = opt.Helpers
+				}
+				for f := range callers {
 					if f == h {
 						continue
 					}
